@@ -577,3 +577,19 @@ Proof.
   - left. split; [left; reflexivity|]. intros [_ H]. discriminate H.
   - right. split; [reflexivity|]. intros [H _]. discriminate H.
 Qed.
+
+(* ---------- consequences ---------- *)
+Lemma url_unambiguous s u1 u2 : in_grammar s u1 -> in_grammar s u2 -> u1 = u2.
+Proof. intros H1 H2. apply url_parse_complete in H1. apply url_parse_complete in H2. congruence. Qed.
+
+Lemma url_print_inj u1 u2 : url_wf u1 -> url_wf u2 -> url_print u1 = url_print u2 -> u1 = u2.
+Proof.
+  intros W1 W2 E. pose proof (url_parse_print u1 W1) as P1. rewrite E, (url_parse_print u2 W2) in P1. congruence.
+Qed.
+
+Lemma url_canon_stable s u : url_parse s = Some u -> url_parse (canon s) = Some u /\ canon (canon s) = canon s.
+Proof.
+  intro H. destruct (url_print_parse s u H) as [Hp Hw]. rewrite <- Hp. split.
+  - apply url_parse_print. exact Hw.
+  - apply canon_print. apply print_in_grammar. exact Hw.
+Qed.
